@@ -5,6 +5,8 @@ import Mathlib.Analysis.SpecialFunctions.Trigonometric.Arctan
 import Mathlib.Tactic.Ring
 import Mathlib.Tactic.FieldSimp
 import Mathlib.Tactic.LinearCombination
+import Mathlib.Tactic.IntervalCases
+import Mathlib.Tactic.NormNum
 import ScadVerif.Model.Scalar
 namespace ScadVerif
 
@@ -45,5 +47,13 @@ noncomputable instance : Cmp ℝ where
 @[simp] theorem acos_real (x : ℝ) : (Trig.acos x : ℝ) = Real.arccos x := rfl
 @[simp] theorem atan_real (x : ℝ) : (Trig.atan x : ℝ) = Real.arctan x := rfl
 @[simp] theorem pi_real : (Trig.pi : ℝ) = Real.pi := rfl
+
+
+/-- the Boolean equality test of the scalar type decides equality -/
+class LawfulEqb (α : Type) [Cmp α] : Prop where
+  eqb_iff : ∀ a b : α, Cmp.eqb a b = true ↔ a = b
+
+instance : LawfulEqb ℝ := ⟨eqb_real⟩
+instance : LawfulEqb Int := ⟨by intro a b; simp [Cmp.eqb]⟩
 
 end ScadVerif
